@@ -445,6 +445,9 @@ def replay(run, pid, path):
         rows, trace = scen.replay(run, [dict(sc, id=1)], par=1)
         res = scen.validate(run, trace, first=ATTR[pid]["inv"])
         viols = attribute(pid, res, rows, [dict(sc, id=1)])
+        if str(rp["replay"].get("monitor", "")).startswith("Refinement"):
+            racc, rrej, rn, rskip = refine.check(run, rows, [dict(sc, id=1)])
+            viols += refine.violations(pid, rrej, rows, [dict(sc, id=1)])
         if viols:
             n += 1
             print("REPRODUCED property=%s %s" % (pid, viols[0]["what"]))
